@@ -37,6 +37,7 @@ type Program struct {
 	fieldOwners map[*types.Var]string
 	cheapMemo   map[*ssa.Function]int
 	sharedTouch map[*ssa.Function]bool
+	callIdx     *callSiteIndex
 }
 
 type loadOpts struct {
